@@ -177,14 +177,27 @@ def tail_find(ctx, t):
 
 def tail_find_call(ctx, f):
     """param if f is  param.version[min(len l, len r)..].iter().find(|x| x != 0)"""
-    if not (is_call(f, "Iterator>::find") and len(call_args(f)) == 2):
+    if not (is_call(f, "Iterator>::find", "iter::Iterator::find") and len(call_args(f)) == 2):
         return None
     it = strip_refs(call_args(f)[0])
     while isinstance(it, tuple) and it and it[0] == "loc" and len(it) > 2:
         it = strip_refs(it[2])
+    skipped = None
+    if is_call(it, "Iterator::skip") and len(call_args(it)) == 2:
+        # version.iter().skip(n): the tail from min(n, len) on (skipping past the end leaves nothing, it does not fail)
+        skipped = call_args(it)[1]
+        it = strip_refs(call_args(it)[0])
+        while isinstance(it, tuple) and it and it[0] == "loc" and len(it) > 2:
+            it = strip_refs(it[2])
     if not is_call(it, "[T]>::iter", "IntoIterator>::into_iter"):
         return None
     sl = strip_refs(call_args(it)[0])
+    if skipped is not None:
+        side_ = _version_of(sl)
+        if side_ is None or not (is_min_len(skipped) or vlen(skipped, 4 - side_)):
+            return None
+        clo = strip_refs(call_args(f)[1])
+        return side_ if _nonzero_closure(ctx, clo) else None
     if not (is_index_call(sl) and len(call_args(sl)) == 2):
         return None
     side_ = _version_of(call_args(sl)[0])
@@ -197,11 +210,16 @@ def tail_find_call(ctx, f):
     if other_len:
         TAIL_FROM_OTHER.add(f)
     clo = strip_refs(call_args(f)[1])
+    return side_ if _nonzero_closure(ctx, clo) else None
+
+
+def _nonzero_closure(ctx, clo):
+    """the closure is |x| x != 0 (either operand order, through references)"""
     if not (isinstance(clo, tuple) and clo and clo[0] == "agg" and clo[1] == "closure"):
-        return None
+        return False
     rets = [p.end[1] for p in ret_paths(ctx.paths(clo[2]) or [])]
     if len(rets) != 1:
-        return None
+        return False
     r = rets[0]
 
     def arg(x):
@@ -209,8 +227,7 @@ def tail_find_call(ctx, f):
         while isinstance(x, tuple) and x and x[0] == "deref":
             x = strip_refs(x[1])
         return x == ("param", 2)
-    nonzero = isinstance(r, tuple) and r and r[0] == "binop" and r[1] == "Ne" and ((arg(r[2]) and const_int(r[3]) == 0) or (arg(r[3]) and const_int(r[2]) == 0))
-    return side_ if nonzero else None
+    return isinstance(r, tuple) and r and r[0] == "binop" and r[1] == "Ne" and ((arg(r[2]) and const_int(r[3]) == 0) or (arg(r[3]) and const_int(r[2]) == 0))
 
 
 class _Site:
@@ -384,7 +401,7 @@ def run(ctx):
                 br = [c for c in p.conds() if c.term[0] == "discr" and is_call(c.term[1], "::cmp")]
                 unequal_len = bool(br) and br[-1].fact in (("eq", 255), ("eq", 1))
                 # searches for a non-zero component in a tail (`.find(|x| x != 0)`): all came back empty, and if that is how the tails are examined, both were
-                finds = [c for c in p.conds() if c.term[0] == "discr" and is_call(strip_refs(c.term[1]), "Iterator>::find")]
+                finds = [c for c in p.conds() if c.term[0] == "discr" and is_call(strip_refs(c.term[1]), "Iterator>::find", "iter::Iterator::find")]
                 none = [tail_find_call(ctx, strip_refs(c.term[1])) for c in finds if c.fact == ("eq", 0) or (c.fact[0] == "ne" and 1 in c.fact[1])]
                 branchwise = bool(finds) and all(strip_refs(c.term[1]) in TAIL_FROM_OTHER for c in finds)
                 # common-prefix loop, plus the zero-padding loop (or the search of the longer side's tail) when the lengths differ
